@@ -35,9 +35,9 @@ def remove_at_position(ctx, body, ob):
     if parent is None or body.kind != "Closure":
         return False, "site is not in a closure"
     # inside the closure: remove(deref of captured field 0, closure parameter _2)
-    rem = mu.calls(body, r"^std::vec::Vec::<T, A>::remove$")
+    rem = mu.calls(body, r"^std::vec::Vec::<T, A>::(remove|swap_remove)$")
     if len(rem) != 1:
-        return False, "expected exactly one Vec::remove in the closure"
+        return False, "expected exactly one Vec::remove / swap_remove in the closure"
     _, t = rem[0]
     cdefs = mu.defs_of(body)
     if mu.origin_local(body, cdefs, mu.op_local(t["args"][1])) != 2:
